@@ -33,8 +33,10 @@ impl WalRecuperator {
 
     /// Runs the recovery
     pub(crate) fn run_recovery(&mut self, analysis: &AnalysisResult) -> RuntimeResult<()> {
-        self.run_undo(&analysis)?;
+        // Redo first: the winners' work (including the creation of tables that only exist in the
+        // log) must be in place before the losers' leftovers are removed.
         self.run_redo(&analysis)?;
+        self.run_undo(&analysis)?;
 
         Ok(())
     }
